@@ -146,9 +146,10 @@ Section C04ok.
            | QList => is_q m c "builtins.list" || negb (builtin_seq m c)
            | QSet => is_q m c "builtins.set" || negb (builtin_seq m c)
            | QTuple => (is_q m c "builtins.tuple" && negb nt) || (nt && mem (qual m c) (f_namedtuples F))
+                       || (negb nt && negb (builtin_seq m c))      (* C04-F3 repaired: other tuple subclasses keep their class *)
            end
     | PDict _ m c l => keys_c04_ok (map fst l) && vals l
-    | PDefDict _ m c f l => is_q m c "collections.defaultdict" && keys_c04_ok (map fst l) && vals l && c04_ok f
+    | PDefDict _ m c f l => keys_c04_ok (map fst l) && vals l && c04_ok f      (* subclasses keep their class (C04-F2 repaired) *)
     | PProp _ => true                                         (* the dump raises *)
     | PSlice _ a b c =>
         forallb (fun x => match x with BScalar (SFloat _) => false | _ => true end) [a; b; c]
